@@ -15,6 +15,8 @@ CONSTANTS Times,          \* requested times (ints, may be negative)
           MaxAt,          \* longest at_times list
           ExpmDopModes,   \* what the modelled code does for expm + density operator
           Solve2Modes,    \* what the modelled code does for solve + unsolved 2x2 matrix
+          Progbars,       \* values of the progbar option
+          Progbar0Modes,  \* what the modelled code does for progbar + integrate + zero time span
           PrintCases      \* TRUE: print every complete behaviour for replay (run with one worker)
 
 VARIABLES st,             \* I-model record (C18_Defs!ImplNew / ImplUpdate), or [status |-> "none"]
@@ -56,8 +58,14 @@ Init ==
   /\ st = [status |-> "none"]
   /\ cb = "none" /\ cblog = <<>> /\ pending = <<>> /\ budget = Budget /\ hist = <<>>
 
+\* the constructor may behave in any of the configured ways (identical outcomes collapse); the
+\* updates depend on the progress-bar switch only, which is a single value per configuration
+ASSUME Cardinality(Progbar0Modes) = 1
+Pb0 == CHOOSE p \in Progbar0Modes : TRUE
+ModeSet == {[expm_dop |-> e, solve2 |-> s, progbar0 |-> Pb0] : e \in ExpmDopModes, s \in Solve2Modes}
+UpdModes == CHOOSE m \in ModeSet : TRUE
 Candidates(kind, method, hrep, dim, t0) ==
-  {ImplNew(kind, method, hrep, dim, t0, [expm_dop |-> e, solve2 |-> s]) : e \in ExpmDopModes, s \in Solve2Modes}
+  {ImplNew(kind, method, hrep, dim, t0, pb, m) : pb \in Progbars, m \in ModeSet}
 
 New ==
   /\ st.status = "none"
@@ -79,8 +87,8 @@ Reject ==
 Requestable(s, t) == s.eff = "integrate" => t >= ImplT(s)
 
 \* one elementary update (what Evolution._update_method(t) does, plus the callback)
-Apply(t) ==
-  LET s == ImplUpdate(st, t) IN
+Apply(t, via) ==
+  LET s == ImplUpdate(st, t, via, UpdModes) IN
   /\ st' = s
   /\ cblog' = IF cb # "none" /\ s.exc = ""
               THEN Append(cblog, [t |-> ImplT(s), L |-> s.tauL, R |-> s.tauR]) ELSE cblog
@@ -89,7 +97,7 @@ UpdateTo ==
   /\ Live /\ pending = <<>> /\ budget > 0
   /\ \E t \in Times :
        /\ Requestable(st, t)
-       /\ Apply(t)
+       /\ Apply(t, "update_to")
        /\ hist' = Append(hist, <<"u", t>>)
   /\ budget' = budget - 1
   /\ UNCHANGED <<cb, pending>>
@@ -110,7 +118,7 @@ AtTimes ==
 \* ... and each next() performs one update and yields the state
 AtTimesStep ==
   /\ Live /\ pending # <<>>
-  /\ Apply(Head(pending))
+  /\ Apply(Head(pending), "at_times")
   /\ pending' = Tail(pending)
   /\ UNCHANGED <<cb, budget, hist>>
 
@@ -121,11 +129,18 @@ Spec == Init /\ [][Next]_vars
 Sup == Support(st.method, st.kind, st.hrep)
 
 \* book-keeping form: the evolution time applied equals the reported time minus t0, on both sides
-TimeOK(s) == s.tauL = ImplT(s) - s.t0 /\ (s.kind = "dop" => s.tauR = ImplT(s) - s.t0)
+TimeOK(s) == ImplTimeOK(s)
 
-\* exact form on the concrete system: the state is U(t-t0) p0 (U(t-t0)^dagger)
-ExactState(s) == Evolve(s.kind, UOf(SysDesc(s.dim)), SysP0(s.kind, s.dim), s.tauL, s.tauR)
-RefAt(s, tau) == Evolve(s.kind, UOf(SysDesc(s.dim)), SysP0(s.kind, s.dim), tau, tau)
+\* exact form on the concrete system: the state is U(t-t0) p0 (U(t-t0)^dagger).  The tables are
+\* constant-level definitions: TLC evaluates them once (exact Gaussian-integer matrix products).
+ExactTable ==
+  TLCEval([k \in {"ket", "dop"}, dim \in {2, 3}, qL \in 0..3, qR \in 0..3 |->
+             Evolve(k, UOf(SysDesc(dim)), SysP0(k, dim), qL, qR)])
+ConsTable ==
+  TLCEval([k \in {"ket", "dop"}, dim \in {2, 3}, qL \in 0..3, qR \in 0..3 |->
+             Conserved(k, HOf(SysDesc(dim)), ExactTable[k, dim, qL, qR])])
+ExactState(s) == ExactTable[s.kind, s.dim, s.tauL % 4, s.tauR % 4]
+RefAt(s, tau) == ExactTable[s.kind, s.dim, tau % 4, tau % 4]
 
 Schrodinger      == Live => TimeOK(st)
 SchrodingerExact == Live => ExactState(st) = RefAt(st, T - st.t0)
@@ -138,8 +153,7 @@ ReachesRequestedTime == (Live /\ st.exc = "") => T = st.req
 AcceptsAllowedTimes  == (Live /\ Sup = "must") => st.exc = ""
 \* norm / trace, purity and energy of the exact state never change
 ConservedInv ==
-  Live => Conserved(st.kind, HOf(SysDesc(st.dim)), ExactState(st))
-            = Conserved(st.kind, HOf(SysDesc(st.dim)), SysP0(st.kind, st.dim))
+  Live => ConsTable[st.kind, st.dim, st.tauL % 4, st.tauR % 4] = ConsTable[st.kind, st.dim, 0, 0]
 \* every state shown to a callback is the state of the time shown with it, and it is the reported one
 CallbacksSeeState ==
   /\ \A k \in 1..Len(cblog) : cblog[k].L = cblog[k].t - st.t0 /\ (st.kind = "dop" => cblog[k].R = cblog[k].t - st.t0)
@@ -148,16 +162,16 @@ CallbacksSeeState ==
   /\ (cb = "none" \/ ~Live) => cblog = <<>>
 \* one callback per requested time
 CallbackCount ==
-  (Live /\ cb # "none" /\ st.upd # "expm_fail") => Len(cblog) = (Budget - budget) - Len(pending)
+  (Live /\ cb # "none" /\ Sup = "must") => Len(cblog) = (Budget - budget) - Len(pending)
 
 TypeOK ==
   /\ budget \in 0..Budget
   /\ st.status \in {"none", "live", "rejected"}
-  /\ Live => st.upd \in {"solved_ket", "solved_dop", "integrate", "expm_ket", "expm_both", "expm_fail"}
+  /\ Live => st.upd \in {"solved_ket", "solved_dop", "solved_broken", "integrate", "expm_ket", "expm_both", "expm_fail"}
 
 (* ------------------------- behaviours for replay ------------------------ *)
 Terminal == Rejected \/ (Live /\ budget = 0 /\ pending = <<>>)
-Case == [kind |-> st.kind, method |-> st.method, hrep |-> st.hrep, dim |-> st.dim, t0 |-> st.t0,
+Case == [kind |-> st.kind, method |-> st.method, hrep |-> st.hrep, dim |-> st.dim, t0 |-> st.t0, pb |-> st.pb,
          cb |-> cb, rejected |-> Rejected, calls |-> hist]
 CaseOut == (PrintCases /\ Terminal) => PrintT(<<"QVJSON", ToJson(Case)>>)
 =============================================================================
